@@ -9,6 +9,7 @@ class ConstantOperation(AbstractDenseTimeOnlineOperation):
     def update(self, *args, **kargs):
         if self.is_first_sample:
             out = [[0, self.val], [float("inf"), self.val]]
+            self.is_first_sample = False
         else:
             out = list()
         return out
